@@ -26,6 +26,10 @@ pub trait Explorable: Sync {
     fn check_transition(&self, _parent: &Self::State, _a: &Self::Action, _child: &Self::State) {}
     /// the implementation panicked while executing `a` from `s` (or while being observed in `s`)
     fn report_panic(&self, _s: &Self::State, _a: Option<&Self::Action>, _location: &str, _message: &str) {}
+    /// replayable case "history of `s` followed by `a`" (published to the termination watchdog before the step runs)
+    fn case_of(&self, _s: &Self::State, _a: Option<&Self::Action>) -> serde_json::Value {
+        serde_json::Value::Null
+    }
 }
 
 /// resident set size of this process in GiB (0 when unknown)
@@ -89,9 +93,14 @@ pub fn explore<M: Explorable>(ctx: &Ctx, model: &M, max_ops: usize) -> BfsStats 
         }
     }
     crate::common::par_for_each(ctx.threads, &frontier, |_, s| {
-        if let Err((loc, msg)) = crate::common::guarded(|| model.check_state(s, 0)) {
-            model.report_panic(s, None, &loc, &msg);
-        }
+        crate::common::watched(
+            || model.case_of(s, None),
+            || {
+                if let Err((loc, msg)) = crate::common::guarded(|| model.check_state(s, 0)) {
+                    model.report_panic(s, None, &loc, &msg);
+                }
+            },
+        );
     });
     stats.states_per_depth.push(frontier.len() as u64);
     stats.states = frontier.len() as u64;
@@ -118,6 +127,7 @@ pub fn explore<M: Explorable>(ctx: &Ctx, model: &M, max_ops: usize) -> BfsStats 
             }
             let mut local = Vec::new();
             for a in model.actions(s) {
+                crate::common::watched(|| model.case_of(s, Some(&a)), || {
                 let stepped = match crate::common::guarded(|| model.step(s, &a)) {
                     Ok(c) => c,
                     Err((loc, msg)) => {
@@ -151,6 +161,7 @@ pub fn explore<M: Explorable>(ctx: &Ctx, model: &M, max_ops: usize) -> BfsStats 
                         Err((loc, msg)) => model.report_panic(s, Some(&a), &loc, &msg),
                     }
                 }
+                });
             }
             if !local.is_empty() {
                 next.lock().unwrap().extend(local);
